@@ -19,11 +19,18 @@ def gen_case(rng, maxn, maxm):
     actors = rng.sample([1, 2, 3, 4, 5], rng.randint(1, 4))
     nres = rng.choice([1, 2, 3])
     evs = []
+    anc = []   # strict ancestors of each event
     for i in range(n):
         tr = T.gen_transition(rng, actors, nres)
         k = min(i, rng.choice([0, 1, 1, 1, 2, 2, 3]))
         pool = list(range(max(0, i - 6), i)) if rng.random() < 0.7 else list(range(i))
-        causes = sorted(rng.sample(pool, min(k, len(pool))))
+        causes = rng.sample(pool, min(k, len(pool)))
+        # IMMEDIATE causes (UnfoldingEvent.hpp): drop a cause that is already an ancestor of another chosen cause
+        causes = sorted(c for c in causes if not any(c in anc[d] for d in causes))
+        a = set()
+        for c in causes:
+            a |= {c} | anc[c]
+        anc.append(a)
         evs.append((tr, causes))
     # closure helper to aim at valid configurations
     def closure(s):
@@ -216,7 +223,12 @@ def run(ctx):
                 anc[e] = a
             if any(x in pos and pos[x] > pos[e] for e in S for x in anc[e]):
                 bad("topological-order", "get_topological_ordering(%s)=%s puts an event before one of its causes" % (S, o["topo"]))
-        if ok_sub[ci] != [1]:
+        if c["ksub"] == 0:
+            # convention of subsets_iterator::equal: a 0-subsets iterator equals its end iterator (the empty subset is produced
+            # by powerset_iterator itself)
+            if o["ksub"]:
+                bad("subsets-iterator", "subsets_iterator(k=0) yields %d sets, its documented convention is none" % len(o["ksub"]))
+        elif ok_sub[ci] != [1]:
             bad("subsets-iterator", "subsets_iterator(k=%d) over %d elements yields %s: not every k-subset exactly once"
                 % (c["ksub"], len(S), o["ksub"][:20]))
         if o["pow"] is not None:
@@ -237,6 +249,9 @@ def run(ctx):
     ctx.cov["input_distribution"] = dist
     ctx.assumptions += ["is_dependent_with (Transition::dispatch_depends) is taken as data",
                         "events are created after their immediate causes (UnfoldingEvent's constructor takes existing events)",
+                        "generated cause sets are IMMEDIATE causes as UnfoldingEvent.hpp defines them (no cause is an ancestor of another "
+                        "cause of the same event); the Coq theorems do not need this, get_topological_ordering does",
+                        "subsets_iterator with k=0 is an empty range by the explicit convention of its equal(); checked as such",
                         "Unfolding::insert's de-duplication, immediate conflicts, compute_alternative and the extension sets are not covered"]
 
 
